@@ -99,7 +99,8 @@ class Ctx:
         return False
 
     def result(self, shape, sample):
-        res = {'stats': self.stats, 'obligations': len(self.proved) + len(self.viol) + len(self.incon), 'discharged': len(self.proved), 'nontrivial': self.proved,
+        tw = getattr(self, 'twins', (0, 0))
+        res = {'stats': self.stats, 'twins_ok': tw[0], 'twins_bad': tw[1], 'obligations': len(self.proved) + len(self.viol) + len(self.incon), 'discharged': len(self.proved), 'nontrivial': self.proved,
                'violations': self.viol, 'inconclusive': self.incon or None, 'shape': shape, 'sample': sample}
         if self.viol:
             res['status'] = 'violation'
@@ -305,6 +306,17 @@ def run_signal(item):
             dv = out[6][j] if method == 'SM' else out[3][j]
             # derivative in PHYSICAL time: d/dt = (1/T) d/dxi ; compare T*der == d/dxi
             ctx.prove('T*sample(der(sig))[%d]' % j, dv * Tz, rv, key + '|derivative')
+    if order >= 1 and npts > 2:
+        # twin (vacuity): the reference spline with the coefficient order reversed must be told apart
+        j = 1
+        xj = pos[j]
+        span = max([i for i in range(N) if xi[i] <= xj] or [0])
+        wrong = rb.spline_value(list(reversed(rc[:nb])), xi, order, span, ctx.rdom.const(xj), ctx.rdom)
+        ctx.s.push()
+        ctx.s.add(z3.simplify(ssz[j] - emb(wrong)) != 0)
+        rtw = str(ctx.s.check())
+        ctx.s.pop()
+        ctx.twins = (1, 0) if rtw == 'sat' else (0, 1)
     if method == 'SM' and dsig is not None:
         for i, c in enumerate(refd):
             ctx.prove('T*gist(der(sig))[%d]' % i, out[5][i] * Tz, c, key + '|derivative-coeffs')
